@@ -167,7 +167,7 @@ def build_harness(src_name, config, log, extra_libs=()):
     src = ROOT / "harness" / src_name
     out = BUILD / "hx" / config / src.stem
     out.parent.mkdir(parents=True, exist_ok=True)
-    deps = [src, ROOT / "harness" / "common.h", HOOK_HEADER]
+    deps = [src] + sorted((ROOT / "harness").glob("*.h"))
     h = hashlib.sha256()
     for d in deps:
         h.update(d.read_bytes())
